@@ -23,6 +23,8 @@ THEOREMS = [
     "C15.dwm_emit_on_first_signal",
     "C15.dwm_each_element_once",
     "C15.dwm_completes_when_drained",
+    "C15.dwm_run_eq_spec",
+    "C15.dwm_spec_exactly_once",
     "C15.timestamp_is_clock",
     "C15.time_interval_diffs",
 ]
@@ -269,4 +271,4 @@ def shrink(case):
 
 
 LEVEL_TEXT = ('Lean theorems, for every timeline with non-decreasing times (bursts included), every delay and element type: the model of observable_delay_timespan (materialize+timestamp queue, active/running/exception flags, recursive scheduled action, (due,seq) tie rule inlined) delivers elements and completion exactly d later in order and an error at once dropping what is pending (delay_shift, full strength, no gap hypothesis); delay_subscription relays the source as seen from sub+d; delay_with_mapper (trace machine over all event interleavings) delivers an element at the first signal of its delay observable, once, and completes when drained; timestamp/time_interval carry the clock / the differences. Tied to the code by differential runs on TestScheduler and HistoricalScheduler (hot and cold sources, relative/absolute/zero delays) and by oracles written from the property text.')
-LEVEL_NOTE = ("delay_subscription: the model (and the code) drops elements that arrive at the very instant of a source error (their empty() delay is still queued); the oracle accepts both readings because the property only fixes the subscription time. delay_with_mapper: theorems are step/invariant statements about the trace machine, the construction of the global event order from timelines (stable merge by time) is driver glue validated only by the correspondence. Absolute due times before the subscription time and float timespans are not modelled. Trusted: correspondence harness, generators, the inlined scheduler rule (hot/cold sources are scheduled before the operator's timers).")
+LEVEL_NOTE = ("delay_subscription: the model (and the code) drops elements that arrive at the very instant of a source error (their empty() delay is still queued); the oracle accepts both readings because the property only fixes the subscription time. delay_with_mapper: run = history rule (dwm_run_eq_spec) for every event trace; the construction of the global event order from timelines (stable merge by time) is driver glue validated only by the correspondence. Absolute due times before the subscription time and float timespans are not modelled. Trusted: correspondence harness, generators, the inlined scheduler rule (hot/cold sources are scheduled before the operator's timers).")
